@@ -289,12 +289,68 @@ Definition bad := Eval vm_compute in bd_failures cases.
 Print bad.
 """ % clist(["\n " + r_bd(c) for c in cases])
 
+    def render_rescan(self, cases):
+        def r_ntfn(n):
+            return "%s %s %d%%N %s" % ("nc" if n["k"] == "conn" else "nd", zi(n["h"]), n["b"] + 1, zi(n["t"]))
+
+        def r_rs(c):
+            b, st = c["bd"], c["bd"]["steps"][0]
+            step = st["step"]
+            tm = {x["id"]: x for x in b["blocks"]}
+            init, frm, at = c["in"]["init"], step.get("from", 0), step.get("at", 0)
+            old = list(range(0, init + 1))                      # the chain when the rescan started: ids by height
+            j = frm + at if at else init
+            best, x = [], st["tip"]                             # the node's best chain afterwards, by walking the parents
+            while x >= 0:
+                best.append(x)
+                x = tm[x]["prev"]
+            best.reverse()
+            ids = lambda l: clist(["%d%%N" % (v + 1) for v in l])   # noqa: E731
+            tree = clist(["(%d%%N, %d%%N, %s, %s)" % (x["id"] + 1, x["prev"] + 1, zi(x["h"]), zi(x["t"])) for x in b["blocks"]])
+            new_below = list(reversed(best[:j + 1])) if at else []
+            new_above = best[j + 1:] if at else []
+            return ("{| rc_tree := %s;\n   rc_start := %d%%N; rc_start_h := %s; rc_old_below := %s; rc_old_above := %s;\n"
+                    "   rc_new_below := %s; rc_new_above := %s;\n   rc_ntfns := %s |}") % (
+                tree, old[frm] + 1, zi(frm), ids(list(reversed(old[:frm + 1]))), ids(old[frm + 1:j + 1]),
+                ids(new_below), ids(new_above), clist([r_ntfn(n) for n in st["ntfns"] or []]))
+        return """From stdpp Require Import gmap list numbers.
+From Coq Require Import ZArith NArith.
+From Verif Require Import Sync.Sync Sync.BitcoindReorg Sync.BitcoindRescan Sync.BitcoindReorgCorr.
+Local Open Scope Z_scope.
+Definition cases : list rcase :=
+%s.
+Definition bad := Eval vm_compute in rescan_failures cases.
+Print bad.
+""" % clist(["\n " + r_rs(c) for c in cases])
+
     BD_DIFF = {1: "the model reports a failed node request", 2: "notification stream", 3: "client's best block"}
 
     def evaluate_bd(self, cases, idx):
         """model Sync/BitcoindReorg.v against the real client on the c15bd cases"""
         if not idx:
             return [], "", []
+        is_rs = lambda c: bool(c["in"]["steps"]) and c["in"]["steps"][0]["k"] == "rescan"   # noqa: E731
+        ridx = [i for i in idx if is_rs(cases[i])]
+        idx = [i for i in idx if not is_rs(cases[i])]
+        rmism, rlog, rprob = [], "", []
+        if ridx:
+            rc, out, err = coq_eval(self.ID, self.render_rescan([cases[i] for i in ridx]), "cases_bd_rescan")
+            printed = parse_printed(out, "bad") if rc == 0 else None
+            if printed is None:
+                rprob.append("correspondence (bitcoind rescan): cases file does not evaluate: " + (err or out)[-1500:])
+            else:
+                nums = [int(x) for x in re.findall(r"\d+", printed)]
+                for j in range(0, len(nums) - 1, 2):
+                    ci = ridx[nums[j]]
+                    cases[ci]["model_diff"] = dict(site="BitcoindClient.rescan", differs=self.BD_DIFF.get(nums[j + 1], str(nums[j + 1])))
+                    rmism.append(ci)
+            rlog = out[-300:]
+        if not idx:
+            return rmism, rlog, rprob
+        m1, l1, p1 = self._evaluate_poll(cases, idx)
+        return m1 + rmism, l1 + rlog, p1 + rprob
+
+    def _evaluate_poll(self, cases, idx):
         rc, out, err = coq_eval(self.ID, self.render_bd([cases[i] for i in idx]), "cases_bd")
         if rc != 0:
             return [], out[-600:] + err[-600:], ["correspondence (bitcoind producer): cases file does not evaluate: " + (err or out)[-1500:]]
